@@ -18,7 +18,7 @@ import ast
 from ..pm import AnalysisError, FuncInfo, const_str, dotted, is_self_attr, norm, walk_no_nested
 from ..prov import FuncFacts
 from ..resolve import Ctx, calls_in
-from .common import call_kwargs, returns_of
+from .common import inline_locals, call_kwargs, returns_of
 
 INVERSES = ("inverse_transform_data", "inverse_transform_components", "inverse_transform_scores", "inverse_transform_scores_unseen")
 
@@ -60,32 +60,56 @@ def _chain(chk):
     # get_transformers reverses for inverse=True
     gt = prep.methods["get_transformers"]
     gf = FuncFacts.of(gt)
-    rev = False
-    for st in gf.statements():
-        if isinstance(st, ast.Assign) and isinstance(st.value, ast.Subscript) and norm(st.value.slice).replace(" ", "") == "::-1":
-            g = gf.guards(st)
-            rev = any(isinstance(x.test, ast.Name) and x.test.id == "inverse" and x.polarity for x in g)
+    # provenance of the returned list: reversed ([::-1] / reversed()) exactly on the paths taken when `inverse` holds
+    from .common import effective_guards
+    rev_true = rev_other = plain = False
+    for r in returns_of(gt):
+        for p in gf.paths(r.value, spine_only=True):
+            rops = [o for o in p.ops if (o.kind == "subscript" and o.name.replace(" ", "") == "::-1") or (o.kind == "arg" and o.name == "reversed")
+                    or (o.kind == "method" and o.name == "reverse")]
+            if not rops:
+                plain = True
+                continue
+            for o in rops:
+                egs = effective_guards(gf, o.node)
+                if any(isinstance(t, ast.Name) and t.id == "inverse" and pol for t, pol, _ in egs):
+                    rev_true = True
+                else:
+                    rev_other = True
+    rev = rev_true and plain and not rev_other
     src_ok = "transformer_types" in norm(gt.node)
     chk.check(rev and src_ok, "MIRROR.chain.reverse", gt, gt.node, construct="get_transformers(inverse=True) is the table reversed",
               why="inverse maps no longer undo the stages in reverse order")
     # users of the table
+    from ..resolve import reachable
+
+    def stage_calls(entry, mname):
+        """receivers, in call order, of the per-stage calls `stage.<mname>(...)` made while walking get_transformers()
+        in `entry` or a private helper it calls (string dispatch through getattr followed)"""
+        groups: dict[int, list[str]] = {}
+        nodes = {}
+        for ctx, call, t, path in reachable(pm, Ctx(pm, entry, prep)):
+            if t.fn is None or t.via != "transformers" or len(path) > 2:
+                continue
+            if ctx.fn.cls is None or prep not in ctx.fn.cls.mro:
+                continue
+            if t.fn.name == mname:
+                groups.setdefault(id(call), []).append(t.recv or "")
+                nodes[id(call)] = call
+        return [(nodes[k], v) for k, v in groups.items()]
+
     tr = prep.methods["transform"]
-    loops = [n for n in walk_no_nested(tr.node) if isinstance(n, ast.For)]
-    okt = bool(loops) and norm(loops[0].iter) == "self.get_transformers()" and any(
-        isinstance(c.func, ast.Attribute) and c.func.attr == "transform" for c in ast.walk(loops[0]) if isinstance(c, ast.Call))
-    chk.check(okt, "MIRROR.chain.forward", tr, loops[0] if loops else tr.node, construct="transform walks get_transformers() forward",
-              why="transform no longer applies the fitted stages in fit order")
+    want_f = [f"self.{a}" for a in table]
+    got = stage_calls(tr, "transform")
+    okt = any(v == want_f for _, v in got)
+    chk.check(okt, "MIRROR.chain.forward", tr, got[0][0] if got else tr.node, construct="transform walks get_transformers() forward",
+              why=f"transform no longer applies the fitted stages in fit order (stage calls found: {[v for _, v in got]})")
     for mname in INVERSES:
         m = prep.methods[mname]
-        loops = [n for n in walk_no_nested(m.node) if isinstance(n, ast.For)]
-        ok = False
-        if loops:
-            it = loops[0].iter
-            ok = isinstance(it, ast.Call) and norm(it.func) == "self.get_transformers" and any(
-                k.arg == "inverse" and isinstance(k.value, ast.Constant) and k.value.value is True for k in it.keywords) and any(
-                isinstance(c.func, ast.Attribute) and c.func.attr == mname for c in ast.walk(loops[0]) if isinstance(c, ast.Call))
-        chk.check(ok, "MIRROR.chain.inverse", m, loops[0] if loops else m.node, construct=f"{mname} walks get_transformers(inverse=True) calling {mname}",
-                  why=f"Preprocessor.{mname} does not undo every stage, in reverse order, with the stage's own {mname}")
+        got = stage_calls(m, mname)
+        ok = any(v == want_f[::-1] for _, v in got) and all(v == want_f[::-1] for _, v in got)
+        chk.check(ok, "MIRROR.chain.inverse", m, got[0][0] if got else m.node, construct=f"{mname} walks get_transformers(inverse=True) calling {mname}",
+                  why=f"Preprocessor.{mname} does not undo every stage, in reverse order, with the stage's own {mname} (stage calls found: {[v for _, v in got]})")
     for mname in ("serialize", "deserialize"):
         m = prep.methods[mname]
         called = {(c.func.attr if isinstance(c.func, ast.Attribute) else getattr(c.func, "id", "")) for c in calls_in(m)}
@@ -224,28 +248,38 @@ def _stacker(chk):
 def _concatenator(chk):
     pm = chk.pm
     cc = pm.cls("xeofs.preprocessing.concatenator.Concatenator")
+    from .common import class_closure
     exprs = {}
     for mname in ("transform", "_split_dataarray_into_list"):
         m = cc.methods[mname]
-        found = None
-        for st in walk_no_nested(m.node):
-            if isinstance(st, ast.Assign) and isinstance(st.value, ast.Call) and (dotted(st.value.func) or "").endswith("cumsum"):
-                found = st
-        chk.require(found is not None, f"Concatenator.{mname}: offset computation vanished")
-        exprs[mname] = found
-        ar = [c for c in ast.walk(m.node) if isinstance(c, ast.Call) and (dotted(c.func) or "").endswith("arange")]
-        tname = norm(found.targets[0])
+        hit = None
+        # the offsets and the range built from them may live in a helper shared by both directions
+        for g in class_closure(pm, cc, m):
+            gf = FuncFacts.of(g)
+            for c in gf.calls():
+                if not ((dotted(c.func) or "").endswith("arange") and len(c.args) == 2):
+                    continue
+                lps = [p for p in gf.paths(c.args[0], spine_only=True) if p.atom.kind == "call" and p.atom.name.endswith("cumsum")]
+                hps = [p for p in gf.paths(c.args[1], spine_only=True) if p.atom.kind == "call" and p.atom.name.endswith("cumsum")]
+                if lps and hps:
+                    hit = (g, c, lps, hps)
+        chk.require(hit is not None, f"Concatenator.{mname}: offset computation vanished")
+        g, c, lps, hps = hit
+        exprs[mname] = (g, lps[0].atom.node)
         okar = False
-        if ar and len(ar[0].args) == 2 and all(isinstance(a, ast.Subscript) and norm(a.value) == tname for a in ar[0].args):
-            lo, hi = ar[0].args
-            okar = isinstance(lo.slice, ast.Name) and isinstance(hi.slice, ast.BinOp) and isinstance(hi.slice.op, ast.Add) \
-                and norm(hi.slice.left) == norm(lo.slice) and norm(hi.slice.right) == "1"
-        chk.check(okar, "MIRROR.state.concat.range", m, ar[0] if ar else found, construct=f"{mname}: item i occupies offsets [o[i], o[i+1])",
+        if len(lps) == 1 and len(hps) == 1 and lps[0].atom.node is hps[0].atom.node:
+            lo = [o for o in lps[0].ops if o.kind == "subscript"]
+            hi = [o for o in hps[0].ops if o.kind == "subscript"]
+            if len(lo) == 1 and len(hi) == 1 and len(lps[0].ops) == 1 and len(hps[0].ops) == 1:
+                ls, hs = lo[0].node.slice, hi[0].node.slice
+                okar = isinstance(ls, ast.Name) and isinstance(hs, ast.BinOp) and isinstance(hs.op, ast.Add) \
+                    and norm(hs.left) == norm(ls) and norm(hs.right) == "1"
+        chk.check(okar, "MIRROR.state.concat.range", g, c, construct=f"{mname}: item i occupies offsets [o[i], o[i+1])",
                   why="the dummy feature coordinates of item i are not the half-open range between consecutive offsets")
-    a, b = exprs["transform"], exprs["_split_dataarray_into_list"]
-    chk.check(norm(a.value) == norm(b.value) and "self.n_features" in norm(a.value) and "[0] +" in norm(a.value), "MIRROR.state.concat.offsets",
-              cc.methods["_split_dataarray_into_list"], b, construct="split uses the offsets transform used: cumsum([0] + n_features)",
-              why=f"transform concatenates with offsets {norm(a.value)} but the inverse splits with {norm(b.value)}")
+    (ga, a), (gb, b) = exprs["transform"], exprs["_split_dataarray_into_list"]
+    chk.check(norm(a) == norm(b) and "self.n_features" in norm(a) and "[0] +" in norm(a), "MIRROR.state.concat.offsets",
+              gb, b, construct="split uses the offsets transform used: cumsum([0] + n_features)",
+              why=f"transform concatenates with offsets {norm(a)} but the inverse splits with {norm(b)}")
     fit = cc.methods["fit"]
     cfit = FuncFacts.of(fit)
     ok_nf = ok_ci = False
@@ -310,7 +344,9 @@ def _concat_align(chk):
               why=f"list items are concatenated with {bad}: the sample index of the first item is pasted onto the others by position, so items whose "
                   "samples are ordered differently get their values attached to the wrong sample labels")
     d = kw.get("dim")
-    chk.check(d is not None and norm(d) == "self.feature_name", "MIRROR.state.concat.dim", tr, cs[0], why="items must be concatenated along the feature dimension")
+    dps = FuncFacts.of(tr).paths(d, spine_only=True) if d is not None else []
+    chk.check(bool(dps) and all(p.atom.kind == "selfattr" and p.atom.name == "self.feature_name" and not p.ops for p in dps), "MIRROR.state.concat.dim", tr, cs[0],
+              why="items must be concatenated along the feature dimension")
 
 
 def _multiindex(chk):
@@ -322,9 +358,9 @@ def _multiindex(chk):
     apps = [c for c in calls_in(fit) if isinstance(c.func, ast.Attribute) and c.func.attr == "append" and is_self_attr(c.func.value, "modified_dimensions")]
     ok = len(writes) == 1 and len(apps) == 1
     if ok:
+        from .common import effective_guards
         for n in (writes[0], apps[0]):
-            gs = ff.guards(n)
-            ok = ok and any("isinstance" in norm(g.test) and "MultiIndex" in norm(g.test) and g.polarity for g in gs)
+            ok = ok and any("isinstance" in norm(t) and "MultiIndex" in norm(t) and pol for t, pol, _ in effective_guards(ff, n))
         ok = ok and norm(writes[0].targets[0].slice) == norm(apps[0].args[0])
     chk.check(ok, "MIRROR.state.multiindex.fit", fit, writes[0] if writes else fit.node, construct="fit records coords and name of exactly the MultiIndex dimensions",
               why="the set of converted dimensions and the remembered coordinates disagree")
@@ -335,11 +371,11 @@ def _multiindex(chk):
     chk.check(okt, "MIRROR.state.multiindex.transform", tr, loops[0] if loops else tr.node, construct="transform replaces exactly the recorded dimensions and remembers the new coordinates",
               why="transform no longer converts exactly the dimensions converted at fit")
     inv = mc.methods["_inverse_transform"]
+    from .c05 import reads_in
     got = {}
-    for mt in [n for n in walk_no_nested(inv.node) if isinstance(n, ast.Match)]:
-        for case in mt.cases:
-            if isinstance(case.pattern, ast.MatchValue):
-                got[const_str(case.pattern.value)] = norm(case.body[0].value) if isinstance(case.body[0], ast.Assign) else None
+    for ref in ("fit", "transform"):
+        rd = reads_in(pm, mc, inv, {"reference": ref}) & {"coords_from_fit", "coords_from_transform"}
+        got[ref] = "self." + "|".join(sorted(rd))
     chk.check(got == {"fit": "self.coords_from_fit", "transform": "self.coords_from_transform"}, "MIRROR.state.multiindex.reference", inv, inv.node,
               construct="reference 'fit' -> coords_from_fit, 'transform' -> coords_from_transform", why=f"reference table is {got}")
     want = {"inverse_transform_data": "fit", "inverse_transform_components": "fit", "inverse_transform_scores": "fit", "inverse_transform_scores_unseen": "transform"}
@@ -362,8 +398,9 @@ def _renamer(chk):
     inv = rn.methods["_inverse_transform"]
     oki = False
     for c in calls_in(inv):
-        if isinstance(c.func, ast.Attribute) and c.func.attr == "rename" and c.args and isinstance(c.args[0], ast.DictComp):
-            dc = c.args[0]
+        a0 = inline_locals(FuncFacts.of(inv), c.args[0]) if c.args else None
+        if isinstance(c.func, ast.Attribute) and c.func.attr == "rename" and isinstance(a0, ast.DictComp):
+            dc = a0
             g = dc.generators[0]
             tg = [norm(e) for e in g.target.elts] if isinstance(g.target, ast.Tuple) else []
             oki = norm(g.iter) == "self.dim_mapping.items()" and len(tg) == 2 and norm(dc.key) == tg[1] and norm(dc.value) == tg[0]
